@@ -46,9 +46,24 @@ def boot_native():
         def compat(**kw):
             if "default_number_float" in kw:
                 kw["default_dtype"] = kw.pop("default_number_float")
-            kw.pop("data_type", None) if False else None
             return orig(**kw)
 
         compat._svx_shim = True
         ps.CreateKernelConfig = compat
+        orig_create = ps.create_kernel
+
+        class _Lazy:
+            """compile with pystencils 2.0; fall back to the numpy interpreter when 2.0 refuses"""
+            def __init__(self, asg, config):
+                self.asg, self.config = asg, config
+
+            def compile(self):
+                try:
+                    return orig_create(self.asg, config=self.config).compile()
+                except Exception as e:  # noqa: BLE001
+                    from . import native, npinterp
+                    native.INTERPRETED.append(f"{[str(a.lhs) for a in self.asg]}: {type(e).__name__}")
+                    return npinterp.NumpyKernel(self.asg, self.config)
+
+        ps.create_kernel = lambda asg, config=None: _Lazy(asg, config)
     import sopht  # noqa: F401
